@@ -24,6 +24,7 @@ import Ymq.Lemmas.KroneckerModel
 import Ymq.Lemmas.FIntRoot
 import Ymq.Lemmas.CrtLemmas
 import Ymq.Lemmas.PolyDft
+import Ymq.Lemmas.PolyZMod
 
 namespace Ymq.C10
 open Ymq.PolySpec
@@ -423,5 +424,76 @@ theorem dft_conv {R : Type*} [CommRing R] (k : Nat) (ω ω' : R)
 example : (1 = 0 ∨ (-1 : ℤ) ^ 2 ^ (1 - 1) = -1) ∧ (-1 : ℤ) * (-1) = 1 := by decide
 
 end Transform
+
+/-! ## Polynomial products: `_basic_mul`, `karatsuba`, `mul_karatsuba` -/
+
+section Products
+open Ymq.PolyMul Polynomial
+
+/-- **`Poly::_basic_mul`, unequal lengths included.** For operands of ANY lengths `|p|, |q| ≥ 1`, any
+`z` with `|z| ≥ |p| + |q| - 1` and ANY previous contents of `z`, the model of the double loop — with
+the code's "first term" rule `i == 0 || j + 1 == q.len()` — reaches no panic site and leaves in `z`
+the schoolbook product followed by zeros: as polynomials over any commutative ring image `φ` of the
+coefficient operations, `poly(z') = poly(p)·poly(q)`. (A rule comparing `j + 1` with `p.len()`
+instead of `q.len()` breaks this statement for `|p| ≠ |q|`.) -/
+theorem basic_mul_spec {α R : Type} [CommRing R] {o : Ops α} {φ : α → R} (h : Hom o φ)
+    (z p q : List α) (hp : 1 ≤ p.length) (hq : 1 ≤ q.length) (hz : p.length + q.length - 1 ≤ z.length) :
+    ∃ z', basicMul o z p q = some z' ∧ z'.length = z.length ∧
+      poly (z'.map φ) = poly (p.map φ) * poly (q.map φ) :=
+  basicMul_spec h z p q hp hq hz
+
+/-- **`Poly::karatsuba` equals the schoolbook product on its whole domain.** `karaOk f lp lq zl tl`
+(Ymq/Model/PolyMul.lean, executable) says that for operand lengths `lp`, `lq`, `|z| = zl`, `|tmp| = tl`
+and recursion fuel `f` the code reaches no panic site and forms no product with an empty operand
+(the code's `FIXME: fix unbalanced inputs`). On that domain the model — threshold 20, split point
+`half = ⌈max(lp, lq)/2⌉`, sums `plo + phi`, `qlo + qhi` built in `tmp[2half..]`, middle product in
+`tmp[..2half]` with `z` as scratch, low/high products in `z[..2half]`, `z[2half..]` with
+`tmp[2half..]` as scratch, subtraction of the high product on its first `hilen` entries only,
+final addition into `z[half..3half]` — returns `poly(z') = poly(p)·poly(q)`, whatever the buffers
+contained before. -/
+theorem karatsuba_spec {α R : Type} [CommRing R] {o : Ops α} {φ : α → R} (h : Hom o φ)
+    (f : Nat) (z p q tmp : List α) (hok : karaOk f p.length q.length z.length tmp.length = true) :
+    ∃ z' tmp', karatsuba o f z p q tmp = some (z', tmp') ∧ z'.length = z.length ∧
+      tmp'.length = tmp.length ∧ poly (z'.map φ) = poly (p.map φ) * poly (q.map φ) :=
+  Ymq.PolyMul.karatsuba_spec h f z p q tmp hok
+
+/-- equal lengths are always inside the domain (with `|z| ≥ 2l`, `|tmp| ≥ 3l`), and so are e.g. the
+unequal lengths 15 × 17 of `roots_eval` (base case) and 43 × 42 (recursive case) -/
+theorem karatsuba_domain :
+    (∀ f l zl tl, 1 ≤ l → l ≤ 20 * 2 ^ f → 2 * l ≤ zl → 3 * l ≤ tl → karaOk (f + 1) l l zl tl = true) ∧
+    karaOk 64 15 17 32 96 = true ∧ karaOk 64 43 42 86 258 = true ∧ karaOk 64 43 22 86 258 = false :=
+  ⟨karaOk_equal, by decide, by decide, by decide⟩
+
+/-- **`Poly::mul_karatsuba`** for equal lengths `1 ≤ l ≤ 20·2^63`: the schoolbook product padded to
+`2l` coefficients, over any commutative ring image of the coefficient operations. -/
+theorem mul_karatsuba_spec {α R : Type} [CommRing R] {o : Ops α} {φ : α → R} (h : Hom o φ)
+    (p q : List α) (hl : p.length = q.length) (h1 : 1 ≤ p.length) (h2 : p.length ≤ 20 * 2 ^ 63) :
+    ∃ z', mulKaratsuba o p q = some z' ∧ z'.length = 2 * p.length ∧
+      poly (z'.map φ) = poly (p.map φ) * poly (q.map φ) :=
+  mulKaratsuba_spec h p q hl h1 h2
+
+/-- the same for what the driver runs (`natOps n`, residues modulo `n > 0`): every coefficient of
+the model's answer is congruent modulo `n` to the schoolbook coefficient `PolySpec.mulCoef`. -/
+theorem mul_karatsuba_zmod (n : Nat) (hn : 0 < n) (p q : List Nat) (hl : p.length = q.length)
+    (h1 : 1 ≤ p.length) (h2 : p.length ≤ 20 * 2 ^ 63) :
+    ∃ z', mulKaratsuba (natOps n) p q = some z' ∧ z'.length = 2 * p.length ∧
+      ∀ k, ((z'.getD k 0 : ℕ) : ZMod n) =
+        ((mulCoef (fun i => p.getD i 0) (fun i => q.getD i 0) k : ℕ) : ZMod n) := by
+  obtain ⟨z', e, lz, hp⟩ := mulKaratsuba_spec (natOps_hom n hn) p q hl h1 h2
+  refine ⟨z', e, lz, fun k => ?_⟩
+  have := congrArg (fun P => P.coeff k) hp
+  simp only [coeff_poly, coeff_poly_mul] at this
+  rw [getD_map_hom (natOps_hom n hn)] at this
+  simp only [getD_map_hom (natOps_hom n hn)] at this
+  rw [show (natOps n).zero = 0 from rfl] at this
+  rw [this]
+  unfold mulCoef
+  rw [Ymq.Kronecker.sumTo_eq]
+  push_cast
+  rfl
+
+example : mulKaratsuba (natOps 7) [1, 2, 3] [1, 1, 1] = some [1, 3, 6, 5, 3, 0] := by decide
+
+end Products
 
 end Ymq.C10
